@@ -715,6 +715,10 @@ class ParallelProcess(Process):
             '_parallel': True,
         })
         self._schema = process.schema
+        # Whether the process is a step never changes; the engine and the
+        # store ask while commands may be in flight (e.g. when a
+        # compartment is moved).
+        self._is_step = process.is_step()
         self.profile = profile
         self._stats_objs = stats_objs
         assert not self.profile or self._stats_objs is not None
@@ -822,7 +826,7 @@ class ParallelProcess(Process):
         return self.run_command('calculate_timestep', (states,))
 
     def is_step(self) -> bool:
-        return self.run_command('is_step')
+        return self._is_step
 
     def get_private_state(self) -> State:
         return self.run_command('get_private_state')
